@@ -130,6 +130,32 @@ def p7(ctx, rid):
                     if st['k'] == 'a' and st['r']['k'] == 'bin' and st['r']['op'] in ('Div', 'Shr', 'Rem'):
                         ctx.bad(rid, key, prog.fns[gid].where(), '`%s` derives a node amount of its own (a division inside the pass) instead of using the amounts its caller computed for both passes' % nm)
                         return
+    # (a') the two passes walk the layer with the same loop guards: the same comparison operators in the same order
+    def guards(g):
+        out = []
+        for gid in prog.family(g.id):
+            h = prog.fns[gid]
+            for i in sorted(h.reachable()):
+                for st in h.blocks[i]['s']:
+                    if st['k'] == 'a' and st['r']['k'] == 'bin' and st['r']['op'] in ('Gt', 'Ge', 'Lt', 'Le'):
+                        # only the guards that compare against the node capacity handed in by the caller
+                        def is_cap(o):
+                            l = op_local(o)
+                            hops = 0
+                            while l is not None and hops < 4:
+                                if 'max' in (h.debug_name(l) or ''):
+                                    return True
+                                ds = [x for x in h.defs().get(l, []) if x[2] == 'assign' and x[3]['k'] == 'use']
+                                l = op_local(ds[0][3]['o']) if len(ds) == 1 else None
+                                hops += 1
+                            return False
+                        if is_cap(st['r']['a']) or is_cap(st['r']['b']):
+                            out.append(st['r']['op'] + ('<' if is_cap(st['r']['a']) else '>'))
+        return out
+    g1, g2 = guards(callees[names[0]]), guards(callees[names[1]])
+    if g1 != g2:
+        ctx.bad(rid, key, callees[names[0]].where(), 'the two passes over a tree layer use different loop guards (%s vs %s): for a layer that leaves exactly the node capacity they split it differently, and the parent layer points into the middle of a node' % (g1, g2))
+        return
     # (b) same argument values at the call sites
     sites = {}
     for f in prog.fns.values():
@@ -171,6 +197,46 @@ def p7(ctx, rid):
         raise core.AnchorLost('common caller of the two layer passes')
 
 
+def p8(ctx, rid):
+    """the all-versions walk continues in the file whenever the in-buffer walk ran out of buffer: in go_right every Ok return is
+    either the key-mismatch return inside the loop or follows the call of go_right_file (the hand-over is unconditional - a
+    hand-over that is skipped when the buffer ends exactly on a header boundary drops the older versions behind it)"""
+    prog = ctx.prog
+    n = 0
+    for f in prog.fns.values():
+        if not f.is_coroutine or not f.root.endswith('BPTreeFileIndex::<K>::go_right'):
+            continue
+        hand = [c for c in f.calls if c.name == 'go_right_file' and c.bb in f.reachable()]
+        if not hand:
+            raise core.AnchorLost('go_right_file call in go_right')
+        n += 1
+        key = 'handover-unconditional|%s' % f.root
+        done = [core.completion_block(f, c) for c in hand]
+        done = [d for d in done if d is not None] + [c.bb for c in hand]
+        # key-mismatch returns: blocks entered on the `keys differ` edge of the comparison of two key() results
+        mism = []
+        for i in f.reachable():
+            t = f.blocks[i]['t']
+            if t['k'] != 'switch':
+                continue
+            ogs = core.origins(f, t['o'])
+            for o in ogs:
+                if o.kind == 'call' and o.data.name in ('eq', 'ne') and any(x.kind == 'call' and x.data.name == 'key' for a in o.data.args for x in core.origins(f, a)):
+                    for v, tg in t['vals']:
+                        if (v == 0) == (o.data.name == 'eq'):
+                            mism.append(tg)
+                    if o.data.name == 'ne' and all(v == 0 for v, _ in t['vals']):
+                        mism.append(t['otherwise'])
+        exits = [bb for (bb, k, _) in core.exit_defs(f) if k in ('ok', 'val') and bb in f.reachable()]
+        loose = [e for e in exits if e in f.reach_from([0], avoid_enter=done + mism)]
+        if loose:
+            ctx.bad(rid, key, f.where(loose[0]), 'go_right can return Ok without a key mismatch and without handing over to go_right_file: when the buffer ends on a header boundary the versions behind it are dropped (read_all / read_with lose older versions and markers once the index is on disk)')
+        else:
+            ctx.ok(rid, key, hand[0].where(), 'every Ok return is the key-mismatch return or follows go_right_file')
+    if n < 1:
+        raise core.AnchorLost('go_right: %d' % n)
+
+
 RULES = [
     Rule('C09.P1', 'keys are ordered through the key type, never as raw byte strings, in the index code (C04.T10 instances)', p1, 4),
     Rule('C09.P2', 'cursors over the on-disk leaf region move by whole record headers (C04.T12 instances)', p2, 4),
@@ -178,5 +244,6 @@ RULES = [
     Rule('C09.P4', 'serializer, loader and all-versions search share the per-key order convention (newest first on disk)', p4, 1),
     Rule('C09.P6', 'the on-disk index walks return every version of a key: no deletion-marker test in the b+tree code', p6, 1),
     Rule('C09.P7', 'the writing pass and the parent-building pass of the tree serializer share one (min, max) amount computation', p7, 1),
+    Rule('C09.P8', 'the in-buffer walk always hands over to the file walk unless it saw the next key', p8, 1),
     Rule('C09.P5', 'the on-disk latest-version lookup takes the leftmost header of the key', p5, 1),
 ]
